@@ -81,16 +81,15 @@ package hessian
 //@   ensures [C03,C01:dateTag] result == G.isDate(tag)
 
 //@ func encodeDate
-//@   requires T.valid(date)
 //@   pure
 //@   let ms     = be64(result, 1)
 //@   let floor  = date.sec*1000 + date.nsec/1000000
 //@   let msOK   = ms == floor || (date.nsec % 1000000 != 0 && ms == floor + 1)
-//@   ensures [C10:date-zero-null]      T.iszero(date) ==> len(result) == 1 && result[0] == 'N'
-//@   ensures [C10,C02:date-wf]         !T.iszero(date) ==> G.dateAt(result, 0) && len(result) == 1 + G.dateRest(result[0])
-//@   ensures [C10,C01,C02:date-ms-form]   !T.iszero(date) && result[0] == 0x4a ==> msOK
-//@   ensures [C10,C01:date-compact-form]  !T.iszero(date) && result[0] == 0x4b ==> date.nsec == 0 && int64(int32(be32(result, 1))) == date.sec
-//@   ensures [C02:date-compact-2.0]       !T.iszero(date) && result[0] == 0x4b ==> date.nsec == 0 && int64(int32(be32(result, 1))) * 60 == date.sec
+//@   ensures [C10:date-zero-null]      T.valid(date) && T.iszero(date) ==> len(result) == 1 && result[0] == 'N'
+//@   ensures [C10,C02:date-wf]         T.valid(date) && !T.iszero(date) ==> G.dateAt(result, 0) && len(result) == 1 + G.dateRest(result[0])
+//@   ensures [C10,C01,C02:date-ms-form]   T.valid(date) && !T.iszero(date) && result[0] == 0x4a ==> msOK
+//@   ensures [C10,C01:date-compact-form]  T.valid(date) && !T.iszero(date) && result[0] == 0x4b ==> date.nsec == 0 && int64(int32(be32(result, 1))) == date.sec
+//@   ensures [C02:date-compact-2.0]       T.valid(date) && !T.iszero(date) && result[0] == 0x4b ==> date.nsec == 0 && int64(int32(be32(result, 1))) * 60 == date.sec
 
 //@ func decodeDateValue
 //@   requires flag == -1 || (0 <= flag && flag <= 255)
@@ -295,32 +294,51 @@ package hessian
 //@   ensures [C02,C05:exist-range] result1 ==> 0 <= result0 && result0 < len(e.clsDefList)
 
 //@ func (*Encoder).checkEncodeRefMap
-//@   assigns e.refMap
+//@   requires e.refMap != nil
+//@   assigns mapof(e.refMap)
 //@   loop 1 invariant [C04:ref-walk] true
 //@   ensures [C04:ref-total] true
 
 //@ func (*Encoder).writeClsDef
 //@   assigns @out, @W, @E, @nwrites, e.clsDefList
-//@   loop 1 invariant [C15:W-loop] 0 <= i && i <= len(fldList)
+//@   loop 1 invariant [C15:W-loop] 0 <= i && i <= len(fldList) && (@W ==> old(@W)) && (@E ==> old(@E))
 //@   ensures [C15:W] (@W && !old(@W)) ==> err != nil
+//@   ensures [C13:E] (@E && !old(@E)) ==> err != nil
 
 //@ func (*Encoder).writeObject
-//@   assigns @out, @W, @E, @nwrites, e.clsDefList, e.refMap
-//@   loop 1 invariant [C15,C13:flags-loop] (@W == old(@W) || false) 
+//@   requires e.nameMap != nil && e.refMap != nil
+//@   assigns @out, @W, @E, @nwrites, e.clsDefList, mapof(e.refMap), mapof(e.nameMap)
+//@   loop 1 invariant [C15,C13:flags-loop] (@W ==> old(@W)) && (@E ==> old(@E))
 //@   ensures [C15:W] (@W && !old(@W)) ==> err != nil
 //@   ensures [C13:E] (@E && !old(@E)) ==> err != nil
 
 //@ func (*Encoder).writeList
-//@   assigns @out, @W, @E, @nwrites, e.clsDefList, e.refMap
+//@   requires e.nameMap != nil && e.refMap != nil
+//@   assigns @out, @W, @E, @nwrites, e.clsDefList, mapof(e.refMap), mapof(e.nameMap)
+//@   loop 1 invariant [C15,C13:flags-loop] (@W ==> old(@W)) && (@E ==> old(@E))
 //@   ensures [C15:W] (@W && !old(@W)) ==> err != nil
 //@   ensures [C13:E] (@E && !old(@E)) ==> err != nil
 
 //@ func (*Encoder).writeMap
-//@   assigns @out, @W, @E, @nwrites, e.clsDefList, e.refMap
+//@   requires e.nameMap != nil && e.refMap != nil
+//@   assigns @out, @W, @E, @nwrites, e.clsDefList, mapof(e.refMap), mapof(e.nameMap)
+//@   loop 1 invariant [C15,C13:flags-loop] 0 <= i && (@W ==> old(@W)) && (@E ==> old(@E))
+//@   loop 2 invariant [C15,C13:flags-loop] 0 <= i && (@W ==> old(@W)) && (@E ==> old(@E))
 //@   ensures [C15:W] (@W && !old(@W)) ==> err != nil
 //@   ensures [C13:E] (@E && !old(@E)) ==> err != nil
 
 //@ func (*Encoder).WriteData
-//@   assigns @out, @W, @E, @nwrites, e.clsDefList, e.refMap
+//@   requires e.nameMap != nil && e.refMap != nil
+//@   assigns @out, @W, @E, @nwrites, e.clsDefList, mapof(e.refMap), mapof(e.nameMap)
 //@   ensures [C15:W] (@W && !old(@W)) ==> err != nil
 //@   ensures [C13:E] (@E && !old(@E)) ==> err != nil
+
+//@ func lowerName
+//@   requires len(name) > 0
+//@   pure
+//@   ensures [C02,C05:lower-first] err == nil && len(result0) == len(name) && result0[0] == ite('A' <= name[0] && name[0] <= 'Z', name[0] + 32, name[0])
+
+//@ func capitalizeName
+//@   requires len(name) > 0
+//@   pure
+//@   ensures [C05:cap-first] len(result) == len(name) && result[0] == ite('a' <= name[0] && name[0] <= 'z', name[0] - 32, name[0])
